@@ -85,6 +85,13 @@ out.append('## 7. Independently seeded changes: which checks catch which\n\n'
            'with it. `tools/eval_seeded.py` re-verified the demonstration (fails with / passes without the change) and ran '
            'the listed checks against a scratch worktree with the change applied. "failing input" = the check printed a '
            'VIOLATION with a concrete replay; "tie broken" = VIOLATION … no-failing-input-found.\n\n'
+           'Ten rounds were run (ids `Cxx-mK` = round 1, `Cxx-rNmK` = round N; rounds 1-3: 183 changes, rounds 4-8: 60 each, '
+           'round 9: 35, round 10: 23). Later rounds were told what already existed and asked for rarely used entry points, '
+           'error paths, second uses of one object, refactoring-style and optimisation-style mistakes, and callers outside the '
+           'anchored files. From round 4 on roughly a third of each round was at first missed by the property\'s own check; every '
+           'miss was answered by widening that check (generator classes, model moves, oracle rules, sweeps over all classes of '
+           'the library) — never by special-casing the seeded input — and then the whole collection was re-evaluated. '
+           'TOTALS_PLACEHOLDER\n\n'
            '| seeded | breaks | needs | demo (without / with) | checks |\n|---|---|---|---|---|\n')
 sd = V / 'seeded'
 if sd.is_dir():
@@ -106,11 +113,38 @@ if sd.is_dir():
             else:
                 res.append(f'{prop}: exit {last.get("exit")}')
         def cell(x):
-            return str(x).replace('|', '\\|').replace('\n', ' ')[:260]
+            return str(x).replace('|', '\\|').replace('\n', ' ')[:150]
         dw = (ev.get('demo_without') or [None])[0]
         dm = (ev.get('demo_with') or [None])[0]
         out.append(f'| {d.name} | {cell(m.get("breaks", ""))} | {cell(m.get("needs", ""))} | {dw} / {dm} | {"; ".join(res)} |\n')
 out.append('\n')
 out.append((V / 'design.d' / '_tail.md').read_text())
-(V / 'DESIGN.md').write_text(''.join(out))
+# totals over the seeded collection (from the stored evaluations)
+tot = {'all': 0, 'own': 0, 'other': 0, 'tie': 0, 'na': 0, 'quiet': 0}
+if sd.is_dir():
+    for d in sorted(sd.iterdir()):
+        mf = d / 'meta.json'
+        if not mf.exists():
+            continue
+        ev = json.loads(mf.read_text()).get('evaluation', {})
+        prop = d.name.split('-')[0]
+        tot['all'] += 1
+        if ev.get('applies') is False:
+            tot['na'] += 1
+            continue
+        def fi(rs):
+            return any(r.get('exit') == 1 and 'no-failing-input-found' not in r.get('line', '') for r in rs)
+        checks = ev.get('checks') or {}
+        if prop in checks and fi(checks[prop]):
+            tot['own'] += 1
+        elif any(fi(rs) for rs in checks.values()):
+            tot['other'] += 1
+        elif any(r.get('exit') == 1 for rs in checks.values() for r in rs):
+            tot['tie'] += 1
+        else:
+            tot['quiet'] += 1
+totals = (f"Totals after the last re-evaluation: {tot['all']} seeded changes; {tot['own']} reported with a concrete failing input by the "
+          f"property's own check, {tot['other']} only by the check of a neighbouring property, {tot['tie']} only as a broken tie, "
+          f"{tot['quiet']} not reported, {tot['na']} no longer applicable (their lines were changed by a later `fix:` commit).")
+(V / 'DESIGN.md').write_text(''.join(out).replace('TOTALS_PLACEHOLDER', totals))
 print('DESIGN.md', sum(len(x) for x in out), 'chars')
